@@ -79,16 +79,17 @@ def main(argv=None) -> int:
         print(f"ANALYSIS-ERROR property={pid} analyser crashed (see traceback)")
         return 2
 
-    if rep.errors and not rep.failing():
+    known = load_known()
+    kidx = known_index(known, pid)
+    failing = rep.failing()
+    # a rule that could not complete fails the run as analysis-broken - unless the rules that did complete found a violation
+    # that is not a listed known finding (then that violation is the answer; the incomplete rule is reported as a note)
+    if rep.errors and not [o for o in failing if o.key() not in kidx]:
         for e in rep.errors:
             print(f"ANALYSIS-ERROR property={pid} {e}")
         return 2
     for e in rep.errors:
         print(f"analysis-note (secondary, a violation was found by the completed rules): {e}")
-
-    known = load_known()
-    kidx = known_index(known, pid)
-    failing = rep.failing()
     hits, viol = [], []
     for o in failing:
         if o.key() in kidx:
